@@ -108,11 +108,11 @@ def scenarios(ctx):
     common = dict(tick=1, lose=1, raw=1, disconnect=1, rebuild=1, connect=1, connack=1)
     for mode in ('sync', 'async'):
         out.append(Scn('pub-%s' % mode, profile='pub', mode=mode, init=CONNECTED + (('setwin', 0, 2),),
-                       reconnects=[(True, 0, 4)], budgets=dict(common, pub=2 if q else 3, ack=1 if q else 2),
+                       reconnects=[(True, 0, 4)], budgets=dict(common, pub=3, ack=1 if q else 3),
                        pub_qos=(0, 1, 2), lose_kinds=('done', 'lost')))
         out.append(Scn('sub-%s' % mode, profile='sub', mode=mode, init=CONNECTED + (('setwin', 0, 2),),
                        reconnects=[(True, 0, 4)],
-                       budgets=dict(common, sub=1 if q else 2, unsub=1, ack=1 if q else 2, tick=2),
+                       budgets=dict(common, sub=2, unsub=1 if q else 2, ack=1 if q else 2, tick=2),
                        lose_kinds=('done', 'lost')))
         out.append(Scn('pubsub-%s' % mode, profile='pubsub', mode=mode, init=CONNECTED,
                        reconnects=[(True, 0, 4)],
